@@ -250,7 +250,7 @@ func mixes(p program) bool {
 }
 
 func TestExhaustiveRegistrations(t *testing.T) {
-	maxRegs := lib.Pick(5, 6)
+	maxRegs := lib.Pick(5, 7)
 	only := lib.OnlyCase()
 	total := 0
 	namesVariants := [][]string{{"A", "B"}, {"A", ""}, {"", "B"}}
